@@ -16,6 +16,10 @@ CHECKS = {
    technique="bounded-exhaustive enumeration of accepted programs (fragments F1-F10, kind-agnostic space, annotation matrix, fragments x base documents) through the real pipeline; independent validator on the emitted YAML plus typed round trip",
    text="Every document emitted for the explored program spaces (quick: 73 k documents out of 230 k programs) is checked by a validator that knows nothing about the compiler: all $refs resolve inside the document, path-template variables and required path parameters agree per operation, response keys are default / 100-599 / 1XX-5XX, operationIds are unique, and the YAML text parses back to an equal openapiv3 value that re-serialises byte-identically.",
    note="Paths with repeated variable names and operationIds written by the program itself are excluded as the property states. Base documents only carry references outside components.schemas. Trusts serde_yaml and openapiv3 for the round trip."),
+ "C05": dict(engine="rewrite-bfs", design="§4 C05",
+   technique="explicit-state breadth-first search over programs: a state is a program, a transition is one meaning-preserving rewrite at one site (8 rewrite kinds, every applicable site), states deduplicated by text; invariant checked on every state by running the real compiler and comparing the document with the seed's",
+   text="From accepted fragment programs the search applies, at every site the abstract syntax offers, every rewrite the property lists (parenthesise, name a closed sub-expression, inline a declaration, abstract S[T] into a single-use function, alpha-rename a binder or qualifier with all its uses, swap adjacent statements, insert trivia at a token boundary, move every dependency-closed set of declarations into a new module imported qualified or unqualified) and chains them to depth 2 (thorough 3); every reachable state (quick 0.25 M) must be accepted by the real compiler and emit the seed's document up to the generated names of implicit components.",
+   note="Rewrites are generated on the harness's own abstract syntax and printed; sites where the language's annotation rules make the rewrite change meaning are not transitions (listed in the evidence assumptions). Seeds without a defined reference meaning are skipped."),
  "C06": dict(engine="choice-tape", design="§4 C06, hook H4",
    technique="stateless model checking over hash-map iteration orders (ChoiceMap hook: every iteration is a choice point, all tapes with <= 2 deviations enumerated) and over prior in-process compilations (all ordered pairs / triples); byte comparison of the YAML",
    text="Iteration order of the compiler's hash maps is owned by the explorer through the ChoiceMap hook: for every corpus program the real pipeline is re-executed under every order of every hash-map iteration it performs (all n! orders up to 4 entries, <= 2 deviations) and after every ordered pair (thorough: triple) of other programs compiled before it in the same process; the YAML must be byte-identical. On the present tree the compile path meets zero choice points, i.e. no hash-ordered iteration can reach the output at all. A free-running run of the real oal-cli in 6 fresh processes per program is reported as confirmation only.",
